@@ -31,9 +31,9 @@ type C06Params struct {
 	// (more than one only when several pairs compete for the entry).
 	Expect [][]string `json:"expect"`
 	// Universe: every word that could wrongly survive or wrongly appear.
-	Universe []string     `json:"universe"`
+	Universe []string `json:"universe"`
 	// Optional: forms that may or may not appear (an entry that one order of competing pairs deletes)
-	Optional []string `json:"optional,omitempty"`
+	Optional []string     `json:"optional,omitempty"`
 	Plans    []simrt.Plan `json:"plans"`
 	Kind     string       `json:"kind"` // include | include-except
 	Features []string     `json:"features"`
@@ -469,8 +469,8 @@ func evalC06(sc *Scenario, sim *Sim) ([]Violation, bool, string) {
 				continue
 			}
 			viol = append(viol, Violation{Prop: "C06", Oracle: "compiles",
-				Sig: "C06/compiles/" + p.Kind + "/" + feats,
-				Msg: fmt.Sprintf("generate failed (exit %d) on a well-formed %s program (schedule %d)", r.Exit, p.Kind, pi),
+				Sig:    "C06/compiles/" + p.Kind + "/" + feats,
+				Msg:    fmt.Sprintf("generate failed (exit %d) on a well-formed %s program (schedule %d)", r.Exit, p.Kind, pi),
 				Detail: fmt.Sprintf("program:\n%s\nstderr: %s", p.Prog, clip(r.Stderr))})
 			return viol, true, ""
 		}
@@ -501,7 +501,7 @@ func evalC06(sc *Scenario, sim *Sim) ([]Violation, bool, string) {
 			}
 			if !ok {
 				viol = append(viol, Violation{Prop: "C06", Oracle: "membership", Sig: "C06/membership/missing/" + p.Kind + "/" + feats,
-					Msg: fmt.Sprintf("entry %q must be contributed but the generated regex does not match it (schedule %d)", forms, pi),
+					Msg:    fmt.Sprintf("entry %q must be contributed but the generated regex does not match it (schedule %d)", forms, pi),
 					Detail: fmt.Sprintf("program:\n%s\noutput: %q\nfiles: %s", p.Prog, out, worldText(sc.World))})
 				return viol, true, ""
 			}
@@ -509,7 +509,7 @@ func evalC06(sc *Scenario, sim *Sim) ([]Violation, bool, string) {
 		for _, u := range p.Universe {
 			if !accepted[u] && re.MatchString(u) {
 				viol = append(viol, Violation{Prop: "C06", Oracle: "membership", Sig: "C06/membership/extra/" + p.Kind + "/" + feats,
-					Msg: fmt.Sprintf("word %q must not be contributed (excluded, or not a legal rewrite) but the generated regex matches it (schedule %d)", u, pi),
+					Msg:    fmt.Sprintf("word %q must not be contributed (excluded, or not a legal rewrite) but the generated regex matches it (schedule %d)", u, pi),
 					Detail: fmt.Sprintf("program:\n%s\noutput: %q\nfiles: %s", p.Prog, out, worldText(sc.World))})
 				return viol, true, ""
 			}
@@ -529,14 +529,14 @@ func evalC06(sc *Scenario, sim *Sim) ([]Violation, bool, string) {
 			}
 			if !ok {
 				viol = append(viol, Violation{Prop: "C06", Oracle: "typed-in-place", Sig: "C06/order-with-duplicates/" + p.Kind + "/" + feats,
-					Msg: fmt.Sprintf("F has duplicate entries; the output equals none of the %d programs that type the survivors in an order consistent with F (schedule %d)", len(p.TypedAlts), pi),
+					Msg:    fmt.Sprintf("F has duplicate entries; the output equals none of the %d programs that type the survivors in an order consistent with F (schedule %d)", len(p.TypedAlts), pi),
 					Detail: fmt.Sprintf("program:\n%s\ngot: %q\nlegal: %q\nfiles: %s", p.Prog, out, altOut, worldText(sc.World))})
 				return viol, true, ""
 			}
 		}
 		if typed != nil && (typed.Exit != r.Exit || !bytes.Equal(typed.Stdout, r.Stdout)) {
 			viol = append(viol, Violation{Prop: "C06", Oracle: "typed-in-place", Sig: "C06/order/" + p.Kind + "/" + feats,
-				Msg: fmt.Sprintf("generate differs from the program with the model's survivors typed in place (schedule %d)", pi),
+				Msg:    fmt.Sprintf("generate differs from the program with the model's survivors typed in place (schedule %d)", pi),
 				Detail: fmt.Sprintf("program:\n%s\ntyped:\n%s\ngot:      %q\nexpected: %q\nfiles: %s", p.Prog, p.Typed, out, clip(typed.Stdout), worldText(sc.World))})
 			return viol, true, ""
 		}
@@ -554,11 +554,11 @@ func worldText(w *World) string {
 
 func init() {
 	register(&Property{
-		ID:    "C06",
-		Level: "exploration",
-		Rule: "scenario = word-list include file F (1-12 entries, thorough up to 60; duplicates, blank lines, comments, F-local definitions) x `include` or `include-except` with 1-3 exclude files (empty, disjoint, overlapping, larger than F, using F's definitions) x 0-3 suffix pairs (disjoint, overlapping keys s/es/tes, cascades s->t t->u, \"\" deletions), at top level or inside an assemble block, with neighbouring entries x identity + 2 / 5 seeded schedules over the pair-map and include-map sites; oracles: (membership) every entry the reference model keeps matches the generated regex and no other word of the universe (F, exclusions, rewritten and unrewritten forms) does; (order) byte equality with the program that has the model's result typed in place, when F has no duplicates and no pairs compete. Non-trivial = every scenario (each runs the directive); distinct = distinct (world, program, schedules).",
-		Gen:   genC06,
-		Eval:  evalC06,
+		ID:          "C06",
+		Level:       "exploration",
+		Rule:        "scenario = word-list include file F (1-12 entries, thorough up to 60; duplicates, blank lines, comments, F-local definitions) x `include` or `include-except` with 1-3 exclude files (empty, disjoint, overlapping, larger than F, using F's definitions) x 0-3 suffix pairs (disjoint, overlapping keys s/es/tes, cascades s->t t->u, \"\" deletions), at top level or inside an assemble block, with neighbouring entries x identity + 2 / 5 seeded schedules over the pair-map and include-map sites; oracles: (membership) every entry the reference model keeps matches the generated regex and no other word of the universe (F, exclusions, rewritten and unrewritten forms) does; (order) byte equality with the program that has the model's result typed in place, when F has no duplicates and no pairs compete. Non-trivial = every scenario (each runs the directive); distinct = distinct (world, program, schedules).",
+		Gen:         genC06,
+		Eval:        evalC06,
 		QuickChecks: 1200, ThoroughChecks: 20000, Timeout: 20 * time.Second,
 		Assumptions: []string{
 			"where several pairs compete for one entry (overlapping keys, cascades) the statement picks no winner: every sequential application order is accepted for exactly those entries; determinism of that case is C03's business",
